@@ -43,6 +43,7 @@ def configs(ctx):
         {(0x0001, 0x01): b"\x00"},
         {(0x2222, 0x01): hi + ctx.sym("c06-hi2", 160), (0x0202, 0x82): code},
         {(0x0202, 0x82): code, (0x3333, None): None, (0x4444, 0x05): None, (0x5555, 0x01): hi[:9]},
+        dict([((0x0202, 0x82), code)] + [((0x7000 + i, 0x01), ctx.sym("c06-big-%d" % i, 100)) for i in range(30)]),   # > 3 KiB blob
     ]
 
 
@@ -54,7 +55,11 @@ def cases(ctx):
                 for fr in ("bf3", "bec2"):
                     yield ("len", ln, z, k, fr, "len")
             yield ("len", ln, z, 0, "bf3", "half")
-    for ci in range(4):
+    # large contents (implementation chunk sizes such as 1 KiB, 4 KiB, 64 KiB must not show)
+    for ln in (255, 256, 1000, 1023, 1024, 1025, 1040, 2047, 2048, 2049, 4095, 4096, 4097, 8193, 65535, 65536, 65537, 70001):
+        for fr in ("bf3", "bec2"):
+            yield ("len", ln, 1 if ln % 2 else 0, 0, fr, "len")
+    for ci in range(5):
         for k in range(5):
             for fr in ("bf3", "bec2"):
                 yield ("cfg", ci, k, fr)
